@@ -132,21 +132,31 @@ def allClose (ds : List Rat) (atol : Rat) : Bool :=
   | [] => true
   | d0 :: _ => ds.all (fun d => absR (d - d0) ≤ atol + Gen.allcloseRtol * absR d0)
 
+/-- the `atol` handed to `numpy.allclose`: `min(SRs)`, or 1e-9 when a sample rate is None -/
+def atolOf (srs : List Val) : Except Err Rat :=
+  if srs.contains .none then .ok Gen.atolNoSR
+  else match srs.mapM (fun v => match v with | .num q => some q | _ => none) with
+    | some qs => .ok (minR qs)
+    | none => .error .type
+
 /-- the three stages of `validateDurations`; returns the cache `(SR, duration)` -/
-def validate (e : Element) : Except Err (Val × Rat) := do
-  let ents := Dict.vals e.chans
-  if ents.isEmpty then throw .key
-  let srs ← ents.mapM chanSR
-  if !allSame srs then throw .elemdur
-  let durs ← ents.mapM chanDuration
-  let atol : Rat ← (if srs.contains .none then pure Gen.atolNoSR
-    else match srs.mapM (fun v => match v with | .num q => some q | _ => none) with
-      | some qs => pure (minR qs)
-      | none => throw .type)
-  if !allClose durs atol then throw .elemdur
-  let npts ← ents.mapM chanPoints
-  if !allSame npts then throw .elemdur
-  pure (srs.headD .none, durs.headD 0)
+def validate (e : Element) : Except Err (Val × Rat) :=
+  if (Dict.vals e.chans).isEmpty then .error .key else
+  match (Dict.vals e.chans).mapM chanSR with
+  | .error er => .error er
+  | .ok srs =>
+    if !allSame srs then .error .elemdur else
+    match (Dict.vals e.chans).mapM chanDuration with
+    | .error er => .error er
+    | .ok durs =>
+      match atolOf srs with
+      | .error er => .error er
+      | .ok atol =>
+        if !allClose durs atol then .error .elemdur else
+        match (Dict.vals e.chans).mapM chanPoints with
+        | .error er => .error er
+        | .ok npts =>
+          if !allSame npts then .error .elemdur else .ok (srs.headD .none, durs.headD 0)
 
 /-- `Element.validateDurations()` as a state transformer (it writes the cache) -/
 def validateDurations (e : Element) : Res Element :=
